@@ -108,13 +108,15 @@ func main() {
 			if !*fake && k == *reps-2 {
 				// scripted: leaders that exit and leave a child holding their output; the first two are met only by the
 				// Kill of the clean-up, the others by a Terminate (group observed afterwards)
-				opt.Procs = 8
+				opt.Procs = 9
 				// (index 4 has a slow log writer: its process exits at 30 ms, its last words are being written until
 				//  about 730 ms, the Kill comes at 130 ms, waits for them and succeeds; the Terminates of the others at
 				//  150 ms do not wait for anything)
 				opt.Fixed = []supv.FixedProc{{Beh: "orphan0", Delay: 0}, {Beh: "orphan0", Delay: 30}, {Beh: "orphan0", Delay: 80}, {Beh: "fork", Delay: 0},
 					{Beh: "exit0", Delay: 30, KillAtMs: 130, SinkMs: 700},
-					{Beh: "orphanq", Delay: 0}, {Beh: "orphanq", Delay: 80}, {Beh: "exit137", Delay: 30}}
+					{Beh: "orphanq", Delay: 0}, {Beh: "orphanq", Delay: 80}, {Beh: "exit137", Delay: 30},
+					// its exit has long been reported when a Kill with a deadline that is already over comes: it succeeds
+					{Beh: "exit0", Delay: 0, KillAtMs: 400, KillPast: true}}
 			}
 			if *fake {
 				opt.Fake = func(r *rec.Recorder) supvmodel.ProcessSupervisor { return stack.NewFakeSupWithRules(r) }
